@@ -377,6 +377,8 @@ def lstsq(X, y, add_intercept=False, Rtest=None, rtest=None, rcond=1e-4):
         ones = np.ones_like(y)
         try:
             cols = X.columns.tolist()
+            # add the intercept to a copy, not to the caller's data frame
+            X = X.copy()
             X.loc[:, "intercept"] = ones
             cc = ["intercept"] + cols
             X = X.loc[:, cc]
